@@ -13,7 +13,7 @@ TraceInit == Init /\ l = 1
 Expected(e) ==
   LET refdir == IF Relative(e.entry) THEN RefDir(e.depth) ELSE <<>>
       c      == Canon(refdir, e.abs, e.segs)
-      calls  == ProbeCalls(c, e.exts, e.hit, FALSE, e.entry # "ParseExtends")
+      calls  == ProbeCalls(c, e.exts, e.hit, e.dev, e.entry # "ParseExtends")
   IN [i \in 1..Len(calls) |-> [op |-> calls[i].op, path |-> PathString(calls[i].path, calls[i].ext)]]
 
 TraceStep ==
